@@ -379,15 +379,40 @@ func (s *sim) arrive(kind, sender string, port int) {
 			d.b = s.padTo(d.b, id, 4096-s.rng.Intn(2))
 		}
 	case "undec":
+		// every way a datagram can fail to decode (C04 / C05): too short, an option that overruns, no End option after
+		// well-formed options, a bad cookie, an option of a known type that breaks its own layout rule, a relay around a
+		// message that does not decode
 		if s.v4 {
-			d.b = append(s.validBytes(id)[:240], 53, 9, 1) // option overruns the packet
-			if id%3 == 0 {
+			v := s.validBytes(id)
+			switch id % 6 {
+			case 0:
 				d.b = []byte{1, 2, 3}
+			case 1:
+				d.b = append(v[:240], 53, 9, 1) // option overruns the packet
+			case 2:
+				d.b = append(v[:240], 53, 1, 1, 12, 4, 'h', 'o', 's', 't') // well-formed options, no End
+			case 3:
+				d.b = append([]byte(nil), v...)
+				d.b[237] ^= 0x40 // not the magic cookie
+			case 4:
+				d.b = v[:239] // cut inside the cookie
+			default:
+				d.b = append(v[:240], 53, 1, 1, 61) // a code without its length octet
 			}
 		} else {
-			d.b = []byte{1, 0, 0, byte(id), 0, 1, 0, 9, 1} // option overruns the message
-			if id%3 == 0 {
+			switch id % 6 {
+			case 0:
 				d.b = []byte{12, 1}
+			case 1:
+				d.b = []byte{1, 0, 0, byte(id), 0, 1, 0, 9, 1} // option overruns the message
+			case 2:
+				d.b = []byte{1, 0, 0, byte(id), 0, 1, 0, 1, 9} // a client identifier too short to be a DUID
+			case 3:
+				d.b = append(append([]byte{12, 0}, make([]byte, 32)...), 0, 9, 0, 3, 1, 2, 3) // a relay around three octets
+			case 4:
+				d.b = []byte{1, 0, 0, byte(id), 0, 3, 0, 11, 1, 2, 3, 4, 0, 0, 0, 1, 0, 0, 0} // IA_NA cut short
+			default:
+				d.b = []byte{byte(id)} // one octet
 			}
 		}
 	case "empty":
